@@ -63,9 +63,10 @@ PROPS = {
         assumptions=["the store answers each link load once per traversal step (Advance / Error)"],
     ),
     'C15': dict(
-        driver='msgqueue', monitors=['MON15'], proof_files=['MsgQueueProofs.v'],
+        drivers=[dict(driver='msgqueue', monitors=['MON15']), dict(driver='mq16', cmd='d_mq16', monitors=['MON15P'])],
+        proof_files=['MsgQueueProofs.v', 'MsgQueueParkProofs.v'], props=['C15', 'C15park'],
         level_text="Theorem C15_accounting: for every history of response-assembler transactions (blocks, extension data, statuses, any requests, any split over messages), network outcomes (connect/send ok or failing, retries exhausted, initial connect failure), shutdowns and select choices, in every state where the queue goroutine is parked the peer's accounted memory equals exactly the block bytes of the queued builders plus those of the message in flight; idle implies nothing with content queued and zero accounted; exited implies nothing queued and zero accounted. C15_build_reservation: one transaction returns at once whatever part of its reservation did not become queued block bytes (all of it when refused). C15_monitor: the executable monitor accepts every model history. The model (message builder, scrubbing, retry loop, drain, shutdown) is run against the real MessageQueue + Allocator + ResponseAssembler with a scripted network each run, comparing accounted memory, every queued builder's size, phase, wire contents and per-request events after every label; the same monitor is evaluated on the implementation's observations.",
-        level_note="Partial in one respect: the allocator is reduced to the peer's running total (limits far away), so 'never queued without a successful reservation' is only covered for non-blocking reservations; blocking/refused allocations belong to C13/C14/C25. Interleavings are explored at the granularity of parked states: a label is applied while the queue goroutine is parked (idle, inside a scripted network call, or exited) and the goroutine then runs until it parks again; builds racing with a running goroutine are represented by the select-choice hints only.",
+        level_note="Reservations that have to WAIT are covered by the parked-reservation extension (MsgQueuePark.v: per-peer limit in the model, a transaction that is not granted at once parks in the allocator, releases grant pending reservations in order, the queue's exit answers all pending ones with an error; C15_parked_accounting / C15_parked_monitor in props/C15park.v), driven on the real MessageQueue + real Allocator with small limits by d_mq16 (monitor MON15P); the first driver keeps limits far away. Interleavings are explored at the granularity of parked states: a label is applied while the queue goroutine is parked (idle, inside a scripted network call, or exited) and the goroutine then runs until it parks again; builds racing with a running goroutine are represented by the select-choice hints only.",
         trusted=["verif hooks VerifQueuedBlockSizes / VerifQueuedNonEmpty (add-only, build tag verif)",
                  "harness detects that the queue goroutine is parked by inspecting goroutine stacks (runtime.Stack), and releases one scripted network call per LNet label",
                  "dag-cbor EncodedLength gives the extension size the response builder reserves"],
